@@ -16,7 +16,7 @@ NoSrc == [batch |-> FALSE, dims |-> <<>>, byName |-> FALSE]
 TrInit ==
     /\ l = 1 /\ HWInit /\ TLCSet(2, 0)
     /\ order = <<>> /\ src = NoSrc /\ nodes = <<>> /\ nst = <<>> /\ acc = <<>> /\ amb = <<>>
-    /\ keeps = FALSE /\ kfhit = {}
+    /\ keeps = FALSE /\ kfhit = {} /\ nerrs = <<>>
     /\ fed = <<>> /\ queue = <<>> /\ ist = <<>> /\ store = <<>> /\ nextId = 1 /\ seen = <<>>
 
 Ln == Trace[l]
@@ -50,6 +50,7 @@ SinkOK(i, got) ==
 (* Guards are written "(...) = TRUE": TLC then evaluates them as plain       *)
 (* predicates instead of splitting every disjunction inside them into       *)
 (* successor branches (2^n copies of the same successor state).             *)
+ErrCounted == {"where", "eval", "stateCount", "stateDuration"}
 TrEnd ==
     /\ IsEv("End")
     /\ (Ln.stopErr = "") = TRUE             \* no node gave up on this input
@@ -62,6 +63,9 @@ TrEnd ==
        (* after the drain, so a branch that changed shared data shows up    *)
        (* above; in a chain a later change of a delivered message is drift. *)
     /\ (Ln.fork => Ln.stable) = TRUE
+       (* error reports: a point dropped for an evaluation error is reported  *)
+       (* once by its node, never by a quiet eval                             *)
+    /\ (\A i \in DOMAIN nodes : (nodes[i].k \in ErrCounted /\ ~amb[nodes[i].parent + 1]) => Ln.errs[i] = nerrs[i]) = TRUE
     /\ (IF Ln.stable THEN TRUE ELSE PrintT(<<"DRIFT", "message changed after delivery">>)) = TRUE
     /\ (\A k \in kfhit : PrintT(<<"KF-HIT", k>>)) = TRUE
     /\ TLCSet(2, TLCGet(2) + Cardinality({i \in DOMAIN amb : amb[i]}))
